@@ -214,10 +214,24 @@ func c19ValidHost(h string) bool { return h == c19H0 || h == c19H1 || h == c19HX
 type c19Server struct {
 	label    string
 	key      *c19Key
-	secretID int
+	secretID int // identifies the secret: two servers are "the same server" for tokens / state iff their secretIDs are equal
 	secret   []byte
 	ttl      time.Duration
+	// inst, when non-nil, is the one ServerPeerIDAuth value that serves every request of this server. This is
+	// how the DEFAULT configuration is modelled: HmacKey is left unset, so the secret is whatever that value
+	// generates for itself on first use and exists nowhere else (the harness does not know it). nil = a fresh
+	// handler configured with the explicit secret for every request.
+	inst *ServerPeerIDAuth
 }
+
+// c19DefaultServer is a server in the default configuration: no HmacKey given by the application. Every call
+// constructs an independent server, so every call must be given a secretID of its own.
+func c19DefaultServer(label string, key *c19Key, secretID int, ttl time.Duration) *c19Server {
+	return &c19Server{label: label, key: key, secretID: secretID, ttl: ttl,
+		inst: &ServerPeerIDAuth{PrivKey: key.priv, TokenTTL: ttl, NoTLS: true, ValidHostnameFn: c19ValidHost}}
+}
+
+func (s *c19Server) isDefault() bool { return s.inst != nil }
 
 type c19Out struct {
 	status int
@@ -241,7 +255,8 @@ func (o c19Out) class(ks *c19Keys, want peer.ID) string {
 }
 
 // serve runs ONE request through a fresh ServerPeerIDAuth (the handler keeps no state between requests
-// apart from its HMAC pool) and reports whether / with which peer ID the application callback ran.
+// apart from its HMAC pool) - or, for a server in the default configuration, through its one persistent
+// value - and reports whether / with which peer ID the application callback ran.
 func (s *c19Server) serve(host string, authz []string, viaServeHTTP bool) c19Out {
 	var out c19Out
 	next := func(p peer.ID, w http.ResponseWriter, r *http.Request) {
@@ -249,7 +264,10 @@ func (s *c19Server) serve(host string, authz []string, viaServeHTTP bool) c19Out
 		out.peer = p
 		w.WriteHeader(http.StatusOK)
 	}
-	a := &ServerPeerIDAuth{PrivKey: s.key.priv, TokenTTL: s.ttl, NoTLS: true, ValidHostnameFn: c19ValidHost, HmacKey: s.secret}
+	a := s.inst
+	if a == nil {
+		a = &ServerPeerIDAuth{PrivKey: s.key.priv, TokenTTL: s.ttl, NoTLS: true, ValidHostnameFn: c19ValidHost, HmacKey: s.secret}
+	}
 	req := httptest.NewRequest("POST", "http://x.invalid/", nil)
 	req.Host = host
 	for _, v := range authz {
@@ -259,6 +277,7 @@ func (s *c19Server) serve(host string, authz []string, viaServeHTTP bool) c19Out
 	if viaServeHTTP {
 		a.Next = next
 		a.ServeHTTP(rec, req)
+		a.Next = nil
 	} else {
 		a.ServeHTTPWithNextHandler(rec, req, next)
 	}
